@@ -429,19 +429,25 @@ class Term:
         else:
             raise TypeError
 
-    def subst_type_inplace(self, tyinst) -> Term:
+    def subst_type_inplace(self, tyinst, visited=None) -> Term:
         """Perform substitution on type variables."""
         typecheck.checkinstance('subst_type_inplace', tyinst, TyInst)
+        # A subterm object may occur several times: substitute it only once.
+        if visited is None:
+            visited = set()
+        if id(self) in visited:
+            return
+        visited.add(id(self))
         if hasattr(self, "_hash_val"):
             del self._hash_val
         if self.is_svar() or self.is_var() or self.is_const():
             self.T = self.T.subst(tyinst)
         elif self.is_comb():
-            self.fun.subst_type_inplace(tyinst)
-            self.arg.subst_type_inplace(tyinst)
+            self.fun.subst_type_inplace(tyinst, visited)
+            self.arg.subst_type_inplace(tyinst, visited)
         elif self.is_abs():
             self.var_T = self.var_T.subst(tyinst)
-            self.body.subst_type_inplace(tyinst)
+            self.body.subst_type_inplace(tyinst, visited)
         elif self.is_bound():
             pass
         else:
